@@ -257,7 +257,13 @@ var catalogue = map[string]spec{
 	}, func(o Opt, _ *pools) util.Option { return options.WithNetconfPreferredVersion(o.S) },
 		func(o Opt, m model, c *ctx) string {
 			if o.S != "1.0" && o.S != "1.1" {
-				return "bad-option-any" // validated before the target check: every constructor rejects it
+				if c.ctor == "netconf" {
+					return "bad-option"
+				}
+
+				// to a constructor the option does not apply to, two clauses of the statement
+				// collide ("ignored without error" / "invalid values are rejected"): either is fine
+				return "maybe-bad-option"
 			}
 
 			setIf(c.ctor == "netconf", m, "nc.PreferredVersion", o.S)
